@@ -93,6 +93,7 @@ PROPS = {
         "thorough": box(16, 72000, 420, floor_evaluations=2000, floor_shapes=50),
     },
     "C07": {
+        "adjuncts": [("miri", "c07bg", 32)],
         "level": "exploration",
         "technique": "runtime monitoring: survivor-set oracle (limits, contiguous newest tail of the "
                      "logged stream, gzip round trip, current file spared) after each rotation "
@@ -379,7 +380,7 @@ PROPS = {
     },
     "C03": {
         "level": "exploration",
-        "adjuncts": [("miri", "c03", 48), ("tsan", ["c03", "c12"], 6)],
+        "adjuncts": [("miri", "c03", 48), ("tsan", ["c03", "c12", "c04flush", "c07bg"], 6)],
         "technique": "runtime monitoring: offline exactly-once / intactness / per-thread-order "
                      "checker over unique-id records logged by 2-8 real threads (files through "
                      "hundreds of rotations, captured stdout/stderr of children), seeded scheduling "
@@ -403,7 +404,7 @@ PROPS = {
     },
     "C04": {
         "level": "exploration",
-        "adjuncts": [("miri", "c04", 32)],
+        "adjuncts": [("miri", "c04", 32), ("miri", "c04flush", 32)],
         "technique": "runtime monitoring: read-immediately-after-return presence/order oracle over "
                      "unique-id records for flush / shutdown / last-drop / clone-drop-then-continue, "
                      "async writer thread slowed at async_recv, a persisting-on-flush writer, and "
